@@ -18,7 +18,7 @@ class Unionfind__find(Contract):
     properties = ['C13']
     modifies = ['self._parent']
     loop_types = {0: {'x': 'Key[Elem]', 'parent': 'Key[Elem]', 'gparent': 'Key[Elem]'}}
-    options = {'loop_modifies': {0: ['self._parent']}, 'feas_ms': 150}
+    options = {'loop_modifies': {0: ['self._parent']}, 'feas_ms': 150, 'refute_universe': {'Elem': 3}}
     note = ('path-halving loop by the heap while rule of pyvc/ufmaps.py: invariant inv0 (the structure still realises '
             'the same view (R, N); x stays in the class of the original x), variant var0 = rank of x')
 
@@ -57,7 +57,7 @@ class Unionfind_find(Contract):
     returns = 'Key[Elem]'
     properties = ['C13']
     modifies = ['self._parent']
-    options = {'feas_ms': 150}
+    options = {'feas_ms': 150, 'refute_universe': {'Elem': 3}}
 
     def pre(self, x):
         return named('wf_', uf_wf(self._parent, uf_root, uf_rank))
@@ -91,7 +91,7 @@ class Unionfind__union(Contract):
     returns = 'Key[Elem]'
     properties = ['C13']
     modifies = ['self._parent', 'self._sets']
-    options = {'feas_ms': 150}
+    options = {'feas_ms': 150, 'refute_universe': {'Elem': 3}}
 
     def pre(self, x, y):
         out = named('wf_', uf_wf(self._parent, uf_root, uf_rank))
@@ -119,7 +119,7 @@ class Unionfind_union(Contract):
     returns = 'Key[Elem]'
     properties = ['C13']
     modifies = ['self._parent', 'self._sets']
-    options = {'feas_ms': 150}
+    options = {'feas_ms': 150, 'refute_universe': {'Elem': 3}}
 
     def pre(self, x, y):
         out = named('wf_', uf_wf(self._parent, uf_root, uf_rank))
@@ -137,3 +137,67 @@ class Unionfind_union(Contract):
 
     def raises(self, x, y):
         return {'KeyError': (x not in self._parent) or (y not in self._parent)}
+
+
+def uf_add_root(parent0, x):
+    """the view after add(x): a new element is a singleton class with itself as representative"""
+    return lambda k: ite(k == x and not (x in parent0), x, uf_root(k))
+
+
+def uf_add_rank(parent0, x):
+    return lambda k: ite(k == x and not (x in parent0), 0, uf_rank(k))
+
+
+class Unionfind_add(Contract):
+    target = 'fpy2.utils.unionfind:Unionfind.add'
+    params = {'self': 'Unionfind', 'x': 'Key[Elem]'}
+    overrides = {'self._parent': 'dict[Key[Elem], Key[Elem]]', 'self._sets': 'dict[Key[Elem], set[Key[Elem]]]'}
+    returns = 'Key[Elem]'
+    properties = ['C13']
+    modifies = ['self._parent', 'self._sets']
+    options = {'feas_ms': 150, 'refute_universe': {'Elem': 3}}
+
+    def pre(self, x):
+        out = named('wf_', uf_wf(self._parent, uf_root, uf_rank))
+        out.update(uf_sets_ok(self._sets, self._parent, uf_root))
+        return out
+
+    def post(self, x, result, old):
+        R = uf_add_root(old.self._parent, x)
+        out = named('wf_', uf_wf(self._parent, R, uf_add_rank(old.self._parent, x)))
+        out.update(uf_sets_ok(self._sets, self._parent, R))
+        out.update({
+            'representative': result == R(x),
+            'dom': forall_keys('Elem', lambda k: (k in self._parent) == ((k in old.self._parent) or k == x)),
+        })
+        return out
+
+    def raises(self, x):
+        return {}
+
+
+class Unionfind_component(Contract):
+    target = 'fpy2.utils.unionfind:Unionfind.component'
+    params = {'self': 'Unionfind', 'x': 'Key[Elem]'}
+    overrides = {'self._parent': 'dict[Key[Elem], Key[Elem]]', 'self._sets': 'dict[Key[Elem], set[Key[Elem]]]'}
+    returns = 'set[Key[Elem]]'
+    properties = ['C13']
+    modifies = ['self._parent']
+    inline = True
+    options = {'feas_ms': 150, 'refute_universe': {'Elem': 3}}
+
+    def pre(self, x):
+        out = named('wf_', uf_wf(self._parent, uf_root, uf_rank))
+        out.update(uf_sets_ok(self._sets, self._parent, uf_root))
+        return out
+
+    def post(self, x, result, old):
+        out = named('wf_', uf_wf(self._parent, uf_root, uf_rank))
+        out.update({
+            # the result is exactly the class of x in the abstract view
+            'is_class': forall_keys('Elem', lambda k: (k in result) == ((k in self._parent) and uf_root(k) == uf_root(x))),
+        })
+        return out
+
+    def raises(self, x):
+        return {'KeyError': x not in self._parent}
